@@ -445,19 +445,19 @@ PROPERTIES["C13"]["bounds"]["thorough"] += "; pretty printing: 5544 message shap
 PROPERTIES["C13"]["outside"] = [o for o in PROPERTIES["C13"]["outside"] if "retty" not in o] + ["pretty printing of messages outside the enumerated shapes (arbitrary code text)"]
 
 PROPERTIES["C01"]["runs"] += [
-    dict(pkg="accumulation", files=PIPE_FILES, entry="Harness_P01L", quick=dict(params=dict(SIMPLE=5, COMPOUND=2, ORDERS=2)), thorough=dict(params=dict(SIMPLE=9, COMPOUND=4, ORDERS=3)),
+    dict(pkg="accumulation", files=PIPE_FILES, entry="Harness_P01L", quick=dict(params=dict(SIMPLE=5, COMPOUND=2, ORDERS=4)), thorough=dict(params=dict(SIMPLE=9, COMPOUND=4, ORDERS=5)),
          args=dict(sample_every=197, max_samples=20)),
 ]
 PROPERTIES["C01"]["explanation"] += (" P01L adds one structured statement before or after a base statement (thorough: also two structured statements): a counted loop with an opaque bound, condition loops on x (a body that does not change the "
     "condition diverges), tagless and tagged switches on x == nil with two arms, and calls of pointer-receiver methods that dereference or check their receiver.")
-PROPERTIES["C01"]["bounds"]["quick"] += "; P01L: 966 programs (one structured statement - 3 loop forms, 2 switch forms, 4 receiver forms over 5 straight-line bodies - next to one of 7 base statements)"
-PROPERTIES["C01"]["bounds"]["thorough"] += "; P01L: all 44583 programs over 9 straight-line bodies incl. two structured statements"
+PROPERTIES["C01"]["bounds"]["quick"] += "; P01L: 1580 programs (one structured statement - 3 loop forms, 4 switch forms incl. compound case conditions, 4 receiver forms over 5 straight-line bodies - next to one of 7 base statements or a nil-checked dereference that returns, in 3 spellings)"
+PROPERTIES["C01"]["bounds"]["thorough"] += "; P01L: all programs over 9 straight-line bodies incl. two structured statements"
 PROPERTIES["C01"]["outside"] = [o.replace("loops, switches, methods, struct fields", "nested loops, loops around compound statements, struct fields") for o in PROPERTIES["C01"]["outside"]]
 PROPERTIES["C02"]["runs"] += [
-    dict(pkg="accumulation", files=PIPE_FILES, entry="Harness_P01L", name="_guards", quick=dict(params=dict(SIMPLE=5, COMPOUND=2, ORDERS=2)), thorough=dict(params=dict(SIMPLE=9, COMPOUND=4, ORDERS=2)),
+    dict(pkg="accumulation", files=PIPE_FILES, entry="Harness_P01L", name="_guards", quick=dict(params=dict(SIMPLE=5, COMPOUND=2, ORDERS=4)), thorough=dict(params=dict(SIMPLE=9, COMPOUND=4, ORDERS=4)),
          args=dict(sample_every=197, max_samples=12)),
 ]
-PROPERTIES["C02"]["bounds"]["quick"] += " and the 966 P01L programs (loops, switch-on-nil, receivers)"
+PROPERTIES["C02"]["bounds"]["quick"] += " and the 1580 P01L programs (loops, switch-on-nil incl. compound case conditions, receivers, guarded dereferences that return)"
 
 PROPERTIES["C08"]["runs"] += [
     dict(pkg="accumulation", files=PIPE_FILES, entry="Harness_P08_Ok", args=dict(sample_every=23, max_samples=16)),
@@ -498,3 +498,10 @@ PROPERTIES["C01"]["explanation"] += (" P01R: rotations of 2-9 pointer variables 
     "count that brings the nil to j0. Rotations whose nil needs six or more rounds are a recorded known finding (NilAway's documented StableRoundLimit).")
 PROPERTIES["C01"]["bounds"]["quick"] += "; P01R: all 336 rotation programs with 2-9 variables (known finding: the 21 with the nil six or more positions away fail)"
 PROPERTIES["C01"]["bounds"]["thorough"] += "; P01R as quick"
+
+PROPERTIES["C01"]["runs"] += [
+    dict(pkg="accumulation", files=PIPE_FILES, entry="Harness_P01", name="_boolean_value", quick=dict(params=dict(STMTS=1, COMPOUND=5, BOOLVAL=1)), thorough=dict(params=dict(STMTS=2, COMPOUND=5, BOOLVAL=1)),
+         args=dict(sample_every=61, max_samples=8)),
+]
+PROPERTIES["C01"]["bounds"]["quick"] += "; a nil check of x inside an && / || expression used as a value, followed by the 28 one-statement programs (56)"
+PROPERTIES["C01"]["bounds"]["thorough"] += "; the boolean-value prefix followed by the 742 two-statement programs (1484)"
